@@ -12,6 +12,7 @@ the number of stacked terminators.
 import ReuseVerif.Lemmas.TagsClean
 import ReuseVerif.Lemmas.TagsEnd
 import ReuseVerif.Lemmas.TagsCopyright
+import ReuseVerif.Lemmas.TagsText
 import ReuseVerif.Theorems.C20
 
 namespace C02
@@ -132,6 +133,28 @@ theorem C02_style_terminator_accepted (s : Generated.Style) (hs : s ∈ Generate
     have := endOk_pieces body [s.mEnd] le hp hle
     rw [starBody_eq hb]
     simpa using this
+
+/-! ### a text of several tag lines -/
+
+/-- **Several tag lines.**  `findall` resumes after each match: for a text made of any number of
+    tag lines, each well formed in its place (`WFLines`: the one-line hypotheses read with the rest
+    of the text following the line, and END stopping at the end of its own line), the result is
+    the list of the values, in order. -/
+theorem C02_tag_lines (endRe : Re) (tag : Text) (ls : List TagLineSpec) (h : WFLines endRe tag ls = true) :
+    findSpdxTagWith endRe tag (linesText tag ls) = ls.map (·.v) := by
+  unfold findSpdxTagWith
+  rw [findAll_lines endRe tag ls _ h (Nat.le_succ_of_le (linesText_length tag ls)), List.map_map]
+  exact wfLines_clean endRe tag ls h
+
+/-- the hypotheses are satisfiable: `# SPDX-License-Identifier: MIT` / `// SPDX-License-Identifier: \tGPL-2.0+` -/
+example : WFLines Generated.endRe Generated.licenseTag
+    [⟨"# ".toList, " ".toList, "MIT".toList, []⟩, ⟨"// ".toList, " \t".toList, "GPL-2.0+".toList, []⟩] = true := by
+  have hnil : Re.Matches Generated.endRe [] := Re.Matches.starNil
+  have hs := fun rest => endStopsAt_nil Generated.endRe rest (by decide +kernel) (by decide +kernel) hnil
+  have h1 := fun tail => noEndSuffix_of_last Generated.endRe "MIT".toList tail (by decide +kernel) (by decide +kernel)
+  have h2 := fun tail => noEndSuffix_of_last Generated.endRe "GPL-2.0+".toList tail (by decide +kernel) (by decide +kernel)
+  simp only [WFLines, hs, h1, h2, Bool.and_true, Bool.true_and]
+  decide +kernel
 
 /-! ### copyright notices -/
 
